@@ -229,31 +229,31 @@ Section RunProofs.
        apply_op_rle initial stk op state = Some stk').
 
   Inductive run : nat -> stack -> result -> Prop :=
-  | RunEnd : forall i stk, n <= i -> run i stk (mk [] [] (StopEnd i))
-  | RunEmpty : forall i, i < n -> run i [] (mk [LexErr i None] [] (StopEmptyStack i))
-  | RunNoMatch : forall i c cur rest R, i < n ->
-      scan_rules m bd cur i rules 0 0 0 = Done (0, R) ->
+  | RunEnd : forall i stk (Hge : n <= i), run i stk (mk [] [] (StopEnd i))
+  | RunEmpty : forall i (Hlt : i < n), run i [] (mk [LexErr i None] [] (StopEmptyStack i))
+  | RunNoMatch : forall i c cur rest R (Hlt : i < n)
+      (Hscan : scan_rules m bd cur i rules 0 0 0 = Done (0, R)),
       run i ((c, cur) :: rest) (mk [LexErr i (Some (ss_id cur))] [] (StopNoMatch i cur))
-  | RunNoTok : forall i c cur rest L R r, i < n ->
-      scan_rules m bd cur i rules 0 0 0 = Done (L, R) -> 0 < L ->
-      nth_error rules R = Some r -> emit r i L = None ->
+  | RunNoTok : forall i c cur rest L R r (Hlt : i < n)
+      (Hscan : scan_rules m bd cur i rules 0 0 0 = Done (L, R)) (HL : 0 < L)
+      (Hnth : nth_error rules R = Some r) (Hemit : emit r i L = None),
       run i ((c, cur) :: rest) (mk [LexErr i None] [] (StopNoTokId i R L))
-  | RunNoTarget : forall i c cur rest L R r em tid op, i < n ->
-      scan_rules m bd cur i rules 0 0 0 = Done (L, R) -> 0 < L ->
-      nth_error rules R = Some r -> emit r i L = Some em ->
-      r_target r = Some (tid, op) -> get_state sts tid = None ->
+  | RunNoTarget : forall i c cur rest L R r em tid op (Hlt : i < n)
+      (Hscan : scan_rules m bd cur i rules 0 0 0 = Done (L, R)) (HL : 0 < L)
+      (Hnth : nth_error rules R = Some r) (Hemit : emit r i L = Some em)
+      (Htgt : r_target r = Some (tid, op)) (Hget : get_state sts tid = None),
       run i ((c, cur) :: rest) (mk (em ++ [LexErr i None]) [] (StopNoTarget i R L))
-  | RunPopEmpty : forall i c cur rest L R r em tid op state, i < n ->
-      scan_rules m bd cur i rules 0 0 0 = Done (L, R) -> 0 < L ->
-      nth_error rules R = Some r -> emit r i L = Some em ->
-      r_target r = Some (tid, op) -> get_state sts tid = Some state ->
-      apply_op_rle initial ((c, cur) :: rest) op state = None ->
+  | RunPopEmpty : forall i c cur rest L R r em tid op state (Hlt : i < n)
+      (Hscan : scan_rules m bd cur i rules 0 0 0 = Done (L, R)) (HL : 0 < L)
+      (Hnth : nth_error rules R = Some r) (Hemit : emit r i L = Some em)
+      (Htgt : r_target r = Some (tid, op)) (Hget : get_state sts tid = Some state)
+      (Hop : apply_op_rle initial ((c, cur) :: rest) op state = None),
       run i ((c, cur) :: rest) (mk (em ++ [LexErr i None]) [] (StopPopEmpty i R L))
-  | RunStep : forall i c cur rest L R r em stk' res', i < n ->
-      scan_rules m bd cur i rules 0 0 0 = Done (L, R) -> 0 < L ->
-      nth_error rules R = Some r -> emit r i L = Some em ->
-      stack_after r ((c, cur) :: rest) stk' ->
-      run (i + L) stk' res' ->
+  | RunStep : forall i c cur rest L R r em stk' res' (Hlt : i < n)
+      (Hscan : scan_rules m bd cur i rules 0 0 0 = Done (L, R)) (HL : 0 < L)
+      (Hnth : nth_error rules R = Some r) (Hemit : emit r i L = Some em)
+      (Hafter : stack_after r ((c, cur) :: rest) stk')
+      (Hrest : run (i + L) stk' res'),
       run i ((c, cur) :: rest)
           (mk (em ++ items res')
               ({| st_pos := i; st_stack := (c, cur) :: rest; st_rule := R; st_len := L |}
@@ -379,15 +379,15 @@ Section RunProofs.
       { intros pos cur' Heq. inversion Heq; subst. eapply scan_no_match; eauto. }
       split; [intros _; right; eauto|]. split; discriminate.
     - split; [intros s []|]. split; [discriminate|]. split; [|split; discriminate].
-      intros [_ Hw]. destruct (emit_none _ _ _ H3) as [nm [Hnm Ht]].
-      destruct (Hw r nm (nth_error_In _ _ H2) Hnm) as [t Ht']. congruence.
+      intros [_ Hw]. destruct (emit_none _ _ _ Hemit) as [nm [Hnm Ht]].
+      destruct (Hw r nm (nth_error_In _ _ Hnth) Hnm) as [t Ht']. congruence.
     - split; [intros s []|]. split; [discriminate|]. split; [|split; discriminate].
-      intros [Hw _]. destruct (Hw r tid op (nth_error_In _ _ H2) H4) as [s Hs]. congruence.
+      intros [Hw _]. destruct (Hw r tid op (nth_error_In _ _ Hnth) Htgt) as [s Hs]. congruence.
     - destruct Hinv as [Hok [Hft Hne]].
       destruct (rle_stack_refines_stack sts initial _ op state Hok Hft
-                  (get_state_from_table _ _ H5) initial_from_table) as [_ [Hsome _]].
-      exfalso. apply (Hsome Hne). assumption.
-    - destruct (IHHrun (stack_after_inv _ _ _ Hinv H4)) as [IH1 [IH2 [IH3 [IH4 IH5]]]].
+                  (get_state_from_table _ _ Hget) initial_from_table) as [_ [Hsome _]].
+      exfalso. apply (Hsome Hne). exact Hop.
+    - destruct (IHHrun (stack_after_inv _ _ _ Hinv Hafter)) as [IH1 [IH2 [IH3 [IH4 IH5]]]].
       split; [|split; [|split; [|split]]]; try assumption.
       intros s [Hs|Hs]; [|apply IH1; exact Hs]. subst s. simpl.
       exists cur. split; [apply current_top; apply Hinv|].
@@ -419,7 +419,7 @@ Section RunProofs.
       split; [|exact IH4].
       intros pos Heq. destruct (IH3 pos Heq) as [Hn Hb]. split; [exact Hn|].
       intros Hib _. apply Hb; [exact Hib|].
-      destruct (scan_chosen _ _ _ _ H0 H1) as [r0 [_ [_ [_ [Hm _]]]]].
+      destruct (scan_chosen _ _ _ _ Hscan HL) as [r0 [_ [_ [_ [Hm _]]]]].
       apply (Hib _ _ _ Hm).
   Qed.
 
@@ -436,11 +436,11 @@ Section RunProofs.
     - split; [reflexivity|intros s []].
     - split; [reflexivity|intros s []].
     - split; [reflexivity|intros s []].
-    - destruct (emit_step_items _ _ _ _ _ H2 H3) as [He _]. rewrite He.
+    - destruct (emit_step_items _ _ _ _ _ Hnth Hemit) as [He _]. rewrite He.
       split; [reflexivity|intros s []].
-    - destruct (emit_step_items _ _ _ _ _ H2 H3) as [He _]. rewrite He.
+    - destruct (emit_step_items _ _ _ _ _ Hnth Hemit) as [He _]. rewrite He.
       split; [reflexivity|intros s []].
-    - destruct IHHrun as [IH1 IH2]. destruct (emit_step_items _ _ _ _ _ H2 H3) as [He Hnt].
+    - destruct IHHrun as [IH1 IH2]. destruct (emit_step_items _ _ _ _ _ Hnth Hemit) as [He Hnt].
       split.
       + rewrite He, IH1, app_assoc. reflexivity.
       + intros s [Hs|Hs]; [|apply IH2; exact Hs]. subst s. simpl. exists r. split; assumption.
@@ -462,7 +462,7 @@ Section RunProofs.
     - exists ((c, cur) :: rest). split; [reflexivity|]. split; [intros s []|discriminate].
     - exists ((c, cur) :: rest). split; [reflexivity|]. split; [intros s []|discriminate].
     - exists ((c, cur) :: rest). split; [reflexivity|]. split; [intros s []|discriminate].
-    - destruct (IHHrun (stack_after_inv _ _ _ Hinv H4)) as [final [IH1 [IH2 IH3]]].
+    - destruct (IHHrun (stack_after_inv _ _ _ Hinv Hafter)) as [final [IH1 [IH2 IH3]]].
       exists final. split; [|split; [|exact IH3]].
       + split; [reflexivity|]. exists r, stk'. split; [assumption|].
         split; [apply stack_after_next; assumption|exact IH1].
@@ -798,3 +798,14 @@ Proof.
   - split; [vm_compute; reflexivity|]. exists 1. split; [simpl; auto|].
     simpl. intros [H|[H|[]]]; discriminate.
 Qed.
+
+(* set_rule_ids on the example rules with the map {0 -> 7, 4 -> 9, 8 -> 1}:
+   name 8 is missing from the lexer, names 1, 3, 5 are missing from the map;
+   the unnamed rule keeps its id *)
+Example ex_ids :
+  set_rule_ids [(0, 7); (4, 9); (8, 1)] Example.ex_rules =
+  Done (map (fun rt => set_tok (fst rt) (snd rt))
+          (combine Example.ex_rules [Some 7; None; Some 2; None; Some 9; None]),
+        Some [8], Some [1; 3; 5]).
+Proof. vm_compute. reflexivity. Qed.
+
